@@ -65,6 +65,8 @@ def make_judges(ctx):
                 ctx.violation('idempotence', '%s: indexed store of representable values %s gave codes %s, expected %s' % (
                     R.dtype_fxp(*post.fmt()), [str(v) for v in si.values[:3]], post.codes[:6], want[:6]), ev)
             raised = [f for f in _FL if post.status.get(f) and not si.pre.status.get(f)]
+            if si.fxp_source and (si.src_status or {}).get('inaccuracy'):
+                raised = [f for f in raised if f != 'inaccuracy']      # a fixed-point input hands its own inaccuracy flag on (C04), that is not a flag of this store
             if raised:
                 ctx.violation('idempotence_flag', '%s %s/%s: an indexed store of representable values raised %s' % (
                     R.dtype_fxp(*post.fmt()), post.rounding, post.overflow, raised), ev)
@@ -145,6 +147,8 @@ def make_judges(ctx):
         if all_exact_in_range and nchecked:
             before = si.pre.status if si.pre is not None else {}
             raised = [f for f in _FL if post.status.get(f) and not before.get(f)]
+            if si.fxp_source and (si.src_status or {}).get('inaccuracy'):
+                raised = [f for f in raised if f != 'inaccuracy']      # a fixed-point input hands its own inaccuracy flag on (C04), that is not a flag of this store
             if raised:
                 ctx.violation('idempotence_flag', '%s %s/%s: storing representable values raised %s' % (
                     R.dtype_fxp(*post.fmt()), post.rounding, post.overflow, raised), ev)
